@@ -95,8 +95,27 @@ PROPS["C05"] = {
 ENGINES.append({"name": "lock", "path": "overlay/verifsim/lock", "serves_properties": ["C05"],
     "kind_free_text": "real lock backends under scripted concurrent clients; request-level scheduling and faults at protocol-level fakes; porcupine"})
 
+WIT_NOTE = ("Trusted: the reference Merkle model and note parser, torchwood's cosignature verifiers (used to check returned signatures) and proof generators (used on the client side only), "
+            "the simulated lock store (linearizable, C05) and object store (atomic, read-after-write). Real: internal/witness handlers via ServeHTTP, NewWitness, PullLogList. "
+            "A crash is delivered between operations or inside a locked section as failures-then-death; HTTP transport, timeouts of a real server and cmd/sunlight wiring are not run.")
+WIT = {"engine": "wit", "quick_budget": 45, "thorough_budget": 900, "level_note": WIT_NOTE,
+       "real": ["internal/witness: NewWitness, PullLogList, add-checkpoint, add-entries, sign-subtree handlers (ServeHTTP in-process)", "torchwood, golang.org/x/mod/sumdb/{note,tlog}, filippo.io/mldsa, internal/xaes256gcm"],
+       "stubbed": ["lock store and object store: in-memory, faults (applied / not applied) decided by the scheduler", "HTTP transport: handlers invoked directly; request bodies are readers that park between entry packages", "the logs: ground-truth logs with one fork, generated by the harness"],
+       "assumptions": ["lock store linearizable (C05), object store atomic and read-after-write", "sampling: a clean batch is evidence, not proof"]}
+PROPS["C14"] = dict(WIT,
+    level_text="Adversarial add-checkpoint histories over ground-truth logs with a fork (every kind of single defect: unknown origin, foreign key, old-size mismatch, wrong/foreign-fork/truncated proof, malformed and non-canonical numbers, extension lines), with lock/storage faults applied or not applied on every operation, crashes inside requests and restarts; oracle from the lock-store history and the HTTP answers: recorded sizes never decrease, every recorded tree is a prefix of one branch and consistent with the previous one, 200 answers are exactly the two verifying witness cosignatures over the re-encoded checkpoint and only after the commit, no signature after a failed or unknown-outcome CAS, one-defect requests get exactly the protocol's status.",
+    expect_probes=["resp.addckpt.200", "resp.addckpt.409", "resp.addckpt.422", "resp.addckpt.403", "fault.nonyield.err-applied.lreplace", "crash"])
+PROPS["C15"] = dict(WIT,
+    level_text="Interleaved add-checkpoint and add-entries requests (request bodies park between entry packages, tile uploads park at the storage seam, so uploads race each other and checkpoint updates), arbitrary ranges, unaligned starts, truncated bodies, wrong entries/proofs, stale and forged tickets, gzip bodies, faults and restarts; at every effective write of the mirror checkpoint and every 200 answer the mirror storage must serve the complete signed tree (every full tile, right-edge partial or its full extension, entries equal to the log's, root equal), size never above the pending checkpoint, never decreasing; after a final restart an upload from the mirror size must be accepted.",
+    expect_probes=["resp.addentries.200", "resp.addentries.409", "servable.checked", "resume.ok", "concurrent.requests", "fault.body.cut"])
+PROPS["C16"] = dict(WIT,
+    level_text="sign-subtree requests over checkpoints that were really cosigned in the simulated histories (witness only, mirror only, both) and over none/foreign/forged/corrupted ones, all range shapes and correct/incorrect hashes and proofs; oracle: signatures are returned only for a valid subtree within the size whose hash is the reference subtree hash, exactly by those own ML-DSA keys whose cosignature on the presented checkpoint verifies, and each returned line verifies with the public subtree verifier. The handler is stateless: the simulation contributes the supply of genuinely cosigned checkpoints; stated as exploration over inputs.",
+    expect_probes=["resp.subtree.200", "subtree.signed", "resp.subtree.422", "resp.subtree.403"])
+ENGINES.append({"name": "wit", "path": "overlay/verifsim/wit", "serves_properties": ["C14", "C15", "C16"],
+    "kind_free_text": "real witness/mirror handlers over simulated lock and object stores; adversarial request generator over forked ground-truth logs"})
+
 NOT_APPLICABLE = {
     "C10": "pure function of its input (codec bijections): no schedule, clock, fault, I/O or second party for a simulator to control; deciding it is input generation (property-based testing), which is outside this technique. See DESIGN.md §6.",
 }
-for _p in ["C09", "C12", "C14", "C15", "C16", "C18", "C19", "C20"]:
+for _p in ["C09", "C12", "C18", "C19", "C20"]:
     NOT_APPLICABLE[_p] = "not claimed yet: the simulator for this property is still being built (see DESIGN.md §5 for the plan)"
